@@ -4,6 +4,21 @@ import json, os
 HERE = os.path.dirname(os.path.dirname(os.path.abspath(__file__)))
 ALL = ["C%02d" % i for i in range(1, 21)]
 CHECKS = {
+ "C05": dict(
+   technique="TLA+ spec NameRes.tla: every standard-conforming universe (2 modules, program, internal procedure; declarations, default/explicit accessibility, USE with ONLY lists and renames, re-export) is an initial state for which TLC computes the binding of every reference; rendered to three files and go-to-definition at first/middle/last character of every reference is compared with the spec's binding",
+   text="15k universes (2.5k sampled in quick, all in thorough) x every reference token x 3 cursor positions: declaration file/line and a range covering exactly the name; names that are accessible nowhere must not be answered with any declaration (in particular not a PRIVATE one).",
+   note="Trusted: TLC, renderer with token coordinates. Not modelled: INCLUDE, % chains/EXTENDS, generics. Three root-cause findings keyed on universe features are recorded as known findings.",
+   design="4/C05"),
+ "C06": dict(
+   technique="NameRes.tla universes with reference statements drawn from templates (adjacent occurrences 'n=n+1', occurrences in strings/comments); the spec state gives the entity of every identifier token; references / documentHighlight / rename from every occurrence are compared with the token set of the entity",
+   text="For each entity: every same-spelled token bound to it is required from every invocation point, tokens bound to other entities and tokens in strings/comments are forbidden, rename edits must cover exactly the required ranges with the new text; alias uses through 'lx => x' are don't-care for references and forbidden for rename.",
+   note="Trusted as C05. Rename is checked on ranges/text, not by re-indexing the renamed program.",
+   design="4/C06"),
+ "C12": dict(
+   technique="NameRes.tla universes: at every reference site and for every non-empty prefix of the name, the prefix is typed on a fresh statement line (didChange) and completion labels are compared with the spec's accessible-name set",
+   text="Required: every accessible variable name with the prefix; forbidden: names of the model that are inaccessible at that site or lack the prefix.",
+   note="Trusted as C05. Contexts CALL/USE/ONLY/TYPE(/% chains are not yet generated from the spec.",
+   design="4/C12"),
  "C13": dict(
    technique="TLA+ spec Layout.tla (re-layout operations as actions that change only the layout; line-map laws model-checked) composed with FortranScopes.tla programs: TLC enumerates op sequences per program size, the harness applies them to rendered programs and compares the server's outline+diagnostics dump of the re-laid-out file with the original's, lines mapped through the spec's LineMap",
    text="Valid and single-defect programs x every sequence of <=2 operations (exhaustive per program size, sampled per program) and simulated compositions of 3: blank/comment lines, & continuations with/without leading &, ; joins, LF/CRLF/CR, case, trailing blanks.",
